@@ -361,3 +361,564 @@ Proof.
     + split; [|right; eauto]. apply remove_key_snoc_self. cbn [remove order].
       rewrite remove_key_In. tauto.
 Qed.
+
+(* ------------------------------------------------------------ the model refines the history monitor *)
+
+(* the model's usage order is the history-derived recency list restricted to
+   the keys present *)
+Definition tracks (c : cache) (lru : list key) : Prop :=
+  order c = filter (present_in (keys (items c))) lru.
+
+Lemma filter_present_remove x ks l :
+  remove_key x (filter (present_in ks) l) = filter (present_in (remove_key x ks)) l.
+Proof.
+  induction l as [|a l IH]; cbn [filter]; [reflexivity|].
+  change (present_in ks a) with (memk a ks).
+  change (present_in (remove_key x ks) a) with (memk a (remove_key x ks)).
+  rewrite memk_remove_key.
+  destruct (memk a ks) eqn:M; cbn [andb remove_key].
+  - destruct (N.eqb_spec a x) as [->|Hne]; cbn [negb].
+    + rewrite N.eqb_refl. exact IH.
+    + replace (N.eqb x a) with false by (symmetry; apply N.eqb_neq; congruence).
+      rewrite IH. reflexivity.
+  - exact IH.
+Qed.
+
+Lemma tracks_remove x c lru : tracks c lru -> tracks (remove x c) lru.
+Proof.
+  unfold tracks. intros T. rewrite remove_order, remove_items, keys_remove_assoc, T.
+  apply filter_present_remove.
+Qed.
+
+Lemma tracks_fold_remove ks c lru :
+  tracks c lru -> tracks (fold_left (fun c k => remove k c) ks c) lru.
+Proof.
+  revert c; induction ks as [|k ks IH]; intros c T; cbn [fold_left]; [exact T|].
+  apply IH, tracks_remove, T.
+Qed.
+
+Lemma tracks_make_room now c lru : tracks c lru -> tracks (make_room now c) lru.
+Proof.
+  intros T. unfold make_room. destruct (Nat.leb _ _); [|exact T].
+  rewrite evict_victim. destruct (victim now c); [apply tracks_remove, T|exact T].
+Qed.
+
+Lemma tracks_touch c lru k it :
+  tracks c lru -> In k (order c) -> In k (keys (items c)) -> keys it = keys (items c) ->
+  tracks (mkCache (cap c) it (touch k (order c))) (bump k lru).
+Proof.
+  unfold tracks. intros T Ho Hk E. cbn [order items]. rewrite E, touch_present by exact Ho.
+  unfold bump. rewrite filter_app, filter_remove_key, <- T. cbn [filter].
+  unfold present_in. apply memk_In in Hk. rewrite Hk. reflexivity.
+Qed.
+
+Lemma tracks_push c lru k e :
+  tracks c lru -> ~ In k (keys (items c)) ->
+  tracks (mkCache (cap c) (items c ++ [(k, e)]) (order c ++ [k])) (bump k lru).
+Proof.
+  unfold tracks. intros T Hk. cbn [order items]. rewrite keys_app, keys_single.
+  unfold bump. rewrite filter_app. cbn [filter]. unfold present_in at 2.
+  rewrite memk_app. cbn [memk]. rewrite N.eqb_refl, orb_true_r. f_equal.
+  rewrite (filter_ext_in (present_in (keys (items c) ++ [k])) (present_in (keys (items c)))).
+  - rewrite filter_remove_key, <- T. symmetry. apply remove_key_not_In.
+    rewrite T. rewrite filter_In. unfold present_in. rewrite memk_In. tauto.
+  - intros y Hy. apply remove_key_In in Hy. destruct Hy as [_ Hne]. unfold present_in.
+    rewrite memk_app. cbn [memk]. apply N.eqb_neq in Hne. rewrite Hne. apply orb_false_r.
+Qed.
+
+Lemma make_room_lookup_None now c k :
+  lookup k (items c) = None -> lookup k (items (make_room now c)) = None.
+Proof.
+  intros L. unfold make_room. destruct (Nat.leb _ _); [|exact L].
+  destruct (lookup k (items (evict now c))) eqn:E; [|reflexivity].
+  apply lookup_evict_sub in E. congruence.
+Qed.
+
+Lemma make_room_cap now c : cap (make_room now c) = cap c.
+Proof. unfold make_room. destruct (Nat.leb _ _); [apply evict_cap|reflexivity]. Qed.
+
+Lemma tracks_step c lru now o :
+  wf c -> tracks c lru ->
+  tracks (fst (step c (now, o))) (bump_use (use_of o (snd (step c (now, o)))) lru).
+Proof.
+  intros W T. destruct o as [k v ttl|k|k|]; cbn [step fst snd use_of bump_use].
+  - destruct (lookup k (items c)) as [e0|] eqn:L.
+    + rewrite (set_old _ _ _ _ _ _ L). pose proof (lookup_In_keys _ _ _ L) as Hk.
+      apply tracks_touch; [exact T|apply W, Hk|exact Hk|apply keys_update].
+    + rewrite (set_new _ _ _ _ _ L).
+      apply tracks_push; [apply tracks_make_room, T|].
+      apply lookup_None_keys, make_room_lookup_None, L.
+  - unfold get. destruct (lookup k (items c)) as [e|] eqn:L; [|exact T].
+    destruct (expired now e); cbn [fst snd use_of bump_use]; [apply tracks_remove, T|].
+    pose proof (lookup_In_keys _ _ _ L) as Hk.
+    apply tracks_touch; [exact T|apply W, Hk|exact Hk|reflexivity].
+  - apply tracks_remove, T.
+  - apply tracks_fold_remove, T.
+Qed.
+
+(* what the history says about expiry is what the model's entries say *)
+Lemma expired_agrees c rh now k :
+  agrees c rh -> In k (keys (items c)) -> is_expired rh now k = key_expired now (items c) k.
+Proof.
+  intros A Hk. apply lookup_Some_keys in Hk. destruct Hk as [e L].
+  unfold is_expired, key_expired. rewrite (A k e L), L. reflexivity.
+Qed.
+
+Lemma victim_ok_model c rh lru now x :
+  wf c -> agrees c rh -> tracks c lru -> victim now c = Some x ->
+  victim_ok rh lru (keys (items c)) now x = true.
+Proof.
+  intros W A T Hv. unfold victim_ok. unfold victim in Hv.
+  destruct (find (key_expired now (items c)) (order c)) as [y|] eqn:F.
+  - inversion Hv; subst y. apply find_some in F. destruct F as [Ho Hx].
+    assert (Hin : In x (filter (is_expired rh now) (keys (items c)))).
+    { apply filter_In. split; [apply W, Ho|]. rewrite (expired_agrees c rh now x A); [exact Hx|apply W, Ho]. }
+    destruct (filter (is_expired rh now) (keys (items c))) as [|a l]; [destruct Hin|].
+    apply memk_In, Hin.
+  - rewrite (filter_none (is_expired rh now)).
+    + unfold tracks in T. rewrite <- T. destruct (order c) as [|a l]; cbn in Hv; [discriminate|].
+      inversion Hv; subst. apply N.eqb_refl.
+    + intros y Hy. rewrite (expired_agrees c rh now y A Hy). apply (find_none _ _ F), W, Hy.
+Qed.
+
+Lemma step_ok_model c rh lru now o :
+  wf c -> agrees c rh -> bounded c -> (0 < cap c)%nat -> tracks c lru ->
+  step_ok (cap c) rh lru (keys (items c)) now o (snd (step c (now, o)))
+          (keys (items (fst (step c (now, o))))) = true.
+Proof.
+  intros W A B Hp T. unfold step_ok.
+  assert (W1 : wf (fst (step c (now, o)))) by (apply wf_step, W).
+  assert (B1 : bounded (fst (step c (now, o)))) by (apply bounded_step; assumption).
+  unfold bounded in B1. rewrite cap_step in B1.
+  rewrite nodupb_NoDup by apply W1. rewrite keys_length.
+  replace (Nat.leb _ (cap c)) with true by (symmetry; apply Nat.leb_le; exact B1).
+  cbn [andb]. destruct o as [k v ttl|k|k|]; cbn [step fst snd].
+  - (* set *)
+    destruct (lookup k (items c)) as [e0|] eqn:L.
+    + rewrite (set_old _ _ _ _ _ _ L). cbn [items]. rewrite keys_update.
+      pose proof (lookup_In_keys _ _ _ L) as Hk. apply memk_In in Hk. rewrite Hk. cbn [negb andb orb].
+      rewrite subset_incl by (intros y Hy; right; exact Hy).
+      rewrite removed_nil by apply incl_refl. reflexivity.
+    + rewrite (set_new _ _ _ _ _ L). cbn [items]. rewrite keys_app, keys_single.
+      pose proof L as Hk. apply lookup_None_keys in Hk.
+      assert (Mk : memk k (keys (items c)) = false) by (apply memk_false, Hk).
+      rewrite Mk, memk_app. cbn [memk]. rewrite N.eqb_refl, orb_true_r. cbn [negb andb].
+      rewrite keys_length.
+      destruct (make_room_cases now c W Hp) as [[Hr E]|[Hf [x [Hv [Hin E]]]]]; rewrite E.
+      * replace (Nat.leb (cap c) (length (items c))) with false by (symmetry; apply Nat.leb_gt; exact Hr).
+        rewrite subset_incl.
+        2:{ intros y Hy. apply in_app_iff in Hy. destruct Hy as [Hy|[<-|[]]]; [right; exact Hy|left; reflexivity]. }
+        rewrite removed_nil by (apply incl_appl, incl_refl). reflexivity.
+      * replace (Nat.leb (cap c) (length (items c))) with true by (symmetry; apply Nat.leb_le; exact Hf).
+        rewrite remove_items, keys_remove_assoc.
+        rewrite subset_incl.
+        2:{ intros y Hy. apply in_app_iff in Hy. destruct Hy as [Hy|[<-|[]]]; [|left; reflexivity].
+            right. apply remove_key_In in Hy. tauto. }
+        rewrite removed_victim; [|apply W|exact Hin|exact Hk]. cbn [andb].
+        apply (victim_ok_model c rh lru now x W A T Hv).
+  - (* get *)
+    unfold get. destruct (lookup k (items c)) as [e|] eqn:L; cbn [fst snd].
+    + destruct (expired now e) eqn:X; cbn [fst snd items].
+      * rewrite remove_items, keys_remove_assoc. rewrite subset_incl by apply remove_key_incl.
+        apply forallb_removed. intros y Hy Hn. rewrite remove_key_In in Hn.
+        destruct (N.eq_dec y k) as [->|Hne]; [|tauto].
+        rewrite (expired_agrees c rh now k A Hy). unfold key_expired. rewrite L. exact X.
+      * rewrite subset_incl by apply incl_refl. rewrite removed_nil by apply incl_refl. reflexivity.
+    + rewrite subset_incl by apply incl_refl. rewrite removed_nil by apply incl_refl. reflexivity.
+  - (* delete *)
+    unfold delete. rewrite remove_items, keys_remove_assoc. rewrite subset_incl by apply remove_key_incl.
+    apply forallb_removed. intros y Hy Hn. rewrite remove_key_In in Hn.
+    destruct (N.eq_dec y k) as [->|Hne]; [|tauto]. unfold deleted_or_expired. rewrite N.eqb_refl. reflexivity.
+  - (* cleanup *)
+    rewrite subset_incl.
+    2:{ intros y Hy. apply keys_In_lookup in Hy. destruct Hy as [e Hy]. rewrite lookup_cleanup in Hy by apply W.
+        destruct (lookup y (items c)) eqn:L; [|discriminate]. eapply lookup_In_keys, L. }
+    apply forallb_removed. intros y Hy Hn. rewrite (expired_agrees c rh now y A Hy).
+    apply lookup_None_keys in Hn. rewrite lookup_cleanup in Hn by apply W.
+    unfold key_expired. destruct (lookup y (items c)) as [e|] eqn:L.
+    + destruct (expired now e); [reflexivity|discriminate].
+    + apply lookup_None_keys in L. tauto.
+Qed.
+
+Lemma check_lru_from_run c rh lru h :
+  wf c -> agrees c rh -> bounded c -> (0 < cap c)%nat -> tracks c lru ->
+  check_lru_from (cap c) rh lru (keys (items c)) h (snd (run c h))
+                 (map (fun c => keys (items c)) (states c h)) = true.
+Proof.
+  revert c rh lru. induction h as [|[now o] h IH]; intros c rh lru W A B Hp T; [reflexivity|].
+  cbn [run states map]. destruct (step c (now, o)) as [c1 out] eqn:S.
+  destruct (run c1 h) as [c2 outs] eqn:R. cbn [snd fst check_lru_from].
+  assert (Ec1 : c1 = fst (step c (now, o))) by (rewrite S; reflexivity).
+  assert (Eout : out = snd (step c (now, o))) by (rewrite S; reflexivity).
+  apply andb_true_intro. split.
+  - rewrite Ec1, Eout. apply step_ok_model; assumption.
+  - replace outs with (snd (run c1 h)) by (rewrite R; reflexivity).
+    replace (cap c) with (cap c1) by (rewrite Ec1; apply cap_step).
+    apply IH.
+    + rewrite Ec1. apply wf_step, W.
+    + rewrite Ec1. apply agrees_step; assumption.
+    + rewrite Ec1. apply bounded_step; assumption.
+    + rewrite Ec1, cap_step. exact Hp.
+    + rewrite Ec1, Eout. apply tracks_step; assumption.
+Qed.
+
+(* For every capacity n >= 1 and every history, what the model does satisfies
+   the C13 monitor (the boolean the correspondence check applies to the Go
+   implementation's observations). *)
+Theorem run_check_lru n h :
+  (0 < n)%nat ->
+  check_lru n h (snd (run (empty n) h)) (map (fun c => keys (items c)) (states (empty n) h)) = true.
+Proof.
+  intros Hp. unfold check_lru.
+  apply (check_lru_from_run (empty n) [] [] h).
+  - apply wf_empty.
+  - apply agrees_empty.
+  - unfold bounded. cbn. lia.
+  - exact Hp.
+  - reflexivity.
+Qed.
+
+(* ------------------------------------------------------------ retention *)
+
+(* the keys a history uses, given the outputs: a Set, or a Get that returned a value *)
+Definition use_list (o : op) (out : option Z) : list key :=
+  match use_of o out with Some k => [k] | None => [] end.
+
+Fixpoint uses_of (h : list (time * op)) (outs : list (option Z)) : list key :=
+  match h, outs with
+  | (_, o) :: h', out :: outs' => use_list o out ++ uses_of h' outs'
+  | _, _ => []
+  end.
+
+(* the keys used when history h runs from state c *)
+Definition used (c : cache) (h : list (time * op)) : list key := uses_of h (snd (run c h)).
+
+Lemma used_cons c ev h :
+  used c (ev :: h) = use_list (snd ev) (snd (step c ev)) ++ used (fst (step c ev)) h.
+Proof.
+  unfold used. cbn [run]. destruct (step c ev) as [c1 out]. cbn [fst snd].
+  destruct (run c1 h) as [c2 outs]. destruct ev as [t o]. reflexivity.
+Qed.
+
+(* key k's entry, as the history describes it, is unexpired at the instant of
+   every step of h (rh: the history so far, most recent first) *)
+Fixpoint live_through (k : key) (rh : list (time * op)) (h : list (time * op)) : Prop :=
+  match h with
+  | [] => True
+  | (t, o) :: r => is_expired rh t k = false /\ live_through k ((t, o) :: rh) r
+  end.
+
+(* the keys behind k in a usage order, i.e. used more recently than k *)
+Fixpoint behind (k : key) (l : list key) : list key :=
+  match l with
+  | [] => []
+  | a :: r => if N.eqb k a then r else behind k r
+  end.
+
+Lemma behind_remove_other k x l : x <> k -> behind k (remove_key x l) = remove_key x (behind k l).
+Proof.
+  intros Hne. induction l as [|a l IH]; cbn [remove_key behind]; [reflexivity|].
+  destruct (N.eqb_spec x a) as [->|Hxa].
+  - replace (N.eqb k a) with false by (symmetry; apply N.eqb_neq; congruence). exact IH.
+  - cbn [behind]. destruct (N.eqb k a); [reflexivity|exact IH].
+Qed.
+
+Lemma behind_app_in k l m : In k l -> behind k (l ++ m) = behind k l ++ m.
+Proof.
+  induction l as [|a l IH]; cbn [app behind]; [intros []|].
+  destruct (N.eqb_spec k a) as [->|Hne]; [reflexivity|]. intros [H|H]; [congruence|apply IH, H].
+Qed.
+
+Lemma behind_app_notin k l m : ~ In k l -> behind k (l ++ m) = behind k m.
+Proof.
+  induction l as [|a l IH]; cbn [app behind]; [reflexivity|]. intros H.
+  destruct (N.eqb_spec k a) as [->|Hne]; [exfalso; apply H; left; reflexivity|].
+  apply IH. intros Hin. apply H. right; exact Hin.
+Qed.
+
+Lemma behind_back k l : ~ In k l -> behind k (l ++ [k]) = [].
+Proof. intros H. rewrite behind_app_notin by exact H. cbn. rewrite N.eqb_refl. reflexivity. Qed.
+
+Lemma behind_incl k l : incl (behind k l) l.
+Proof.
+  induction l as [|a l IH]; cbn [behind]; [apply incl_refl|].
+  destruct (N.eqb k a); [apply incl_tl, incl_refl|apply incl_tl, IH].
+Qed.
+
+Lemma behind_NoDup k l : NoDup l -> NoDup (behind k l).
+Proof.
+  induction 1 as [|a l Hn Hd IH]; cbn [behind]; [constructor|]. destruct (N.eqb k a); assumption.
+Qed.
+
+(* k stays and nothing new gets behind it when another key is removed *)
+Lemma behind_after_remove k x l U :
+  In k l -> x <> k -> incl (behind k l) U ->
+  In k (remove_key x l) /\ incl (behind k (remove_key x l)) U.
+Proof.
+  intros Hk Hne Hi. split; [apply remove_key_In; split; [exact Hk|congruence]|].
+  rewrite behind_remove_other by exact Hne. intros y Hy. apply Hi, (remove_key_incl x), Hy.
+Qed.
+
+(* ... and when afterwards a key is pushed at the back *)
+Lemma behind_after_push k x k' l U :
+  In k l -> x <> k -> incl (behind k l) U ->
+  In k (remove_key x l ++ [k']) /\ incl (behind k (remove_key x l ++ [k'])) (U ++ [k']).
+Proof.
+  intros Hk Hne Hi. destruct (behind_after_remove k x l U Hk Hne Hi) as [H1 H2].
+  split; [apply in_app_iff; left; exact H1|]. rewrite behind_app_in by exact H1.
+  apply incl_app; [apply incl_appl, H2|apply incl_appr, incl_refl].
+Qed.
+
+Lemma behind_fold_remove k ks c U :
+  ~ In k ks -> In k (order c) -> incl (behind k (order c)) U ->
+  In k (order (fold_left (fun c k => remove k c) ks c))
+  /\ incl (behind k (order (fold_left (fun c k => remove k c) ks c))) U.
+Proof.
+  revert c. induction ks as [|x ks IH]; intros c Hn Hk Hi; cbn [fold_left]; [tauto|].
+  assert (Hx : x <> k) by (intros ->; apply Hn; left; reflexivity).
+  destruct (behind_after_remove k x (order c) U Hk Hx Hi) as [H1 H2].
+  apply IH; [intros H; apply Hn; right; exact H|exact H1|exact H2].
+Qed.
+
+Lemma nodup_length_incl (a b : list key) :
+  NoDup a -> incl a b -> (length a <= length (nodup N.eq_dec b))%nat.
+Proof.
+  intros ND Hi. apply NoDup_incl_length; [exact ND|]. intros y Hy. apply nodup_In, Hi, Hy.
+Qed.
+
+Lemma nodup_length_mono (a b : list key) :
+  incl a b -> (length (nodup N.eq_dec a) <= length (nodup N.eq_dec b))%nat.
+Proof.
+  intros Hi. apply nodup_length_incl; [apply NoDup_nodup|]. intros y Hy. apply Hi. apply nodup_In in Hy. exact Hy.
+Qed.
+
+(* The rank invariant, one step.  U over-approximates the keys behind k (the
+   other keys used since k's last use); if after this step still fewer than
+   `cap` distinct other keys have been used, k is still there and everything
+   behind it is among them. *)
+Lemma retain_step c rh U k now o :
+  wf c -> agrees c rh -> (0 < cap c)%nat ->
+  In k (order c) -> incl (behind k (order c)) U ->
+  o <> ODel k -> is_expired rh now k = false ->
+  (length (nodup N.eq_dec (U ++ remove_key k (use_list o (snd (step c (now, o)))))) < cap c)%nat ->
+  In k (order (fst (step c (now, o))))
+  /\ incl (behind k (order (fst (step c (now, o))))) (U ++ remove_key k (use_list o (snd (step c (now, o))))).
+Proof.
+  intros W A Hp Hk Hi Hdel Hlive Hlen.
+  assert (Hkk : In k (keys (items c))) by (apply W, Hk).
+  assert (Hx : key_expired now (items c) k = false).
+  { rewrite <- (expired_agrees c rh now k A Hkk). exact Hlive. }
+  destruct (lookup_Some_keys _ _ Hkk) as [ek Lk].
+  assert (Xk : expired now ek = false) by (unfold key_expired in Hx; rewrite Lk in Hx; exact Hx).
+  destruct o as [k' v ttl|k'|k'|]; unfold use_list in *; cbn [step fst snd use_of] in *.
+  - (* set *)
+    destruct (N.eq_dec k' k) as [->|Hne].
+    + (* of k itself *)
+      rewrite (set_overwrite_moves_back now k v ttl c ek W Lk). cbn [order remove_key].
+      rewrite N.eqb_refl. split.
+      * apply in_app_iff. right. left. reflexivity.
+      * rewrite behind_back by apply remove_key_self_notin. intros y [].
+    + cbn [remove_key] in *. replace (N.eqb k k') with false in * by (symmetry; apply N.eqb_neq; congruence).
+      destruct (lookup k' (items c)) as [e0|] eqn:L.
+      * (* overwrite of another key *)
+        rewrite (set_overwrite_moves_back now k' v ttl c e0 W L). cbn [order].
+        apply behind_after_push; assumption.
+      * rewrite (set_new _ _ _ _ _ L). cbn [order].
+        assert (Hk' : ~ In k' (order c)) by (rewrite (wf_same c W); apply lookup_None_keys, L).
+        destruct (make_room_cases now c W Hp) as [[Hr E]|[Hf [x [Hv [Hin E]]]]]; rewrite E.
+        -- (* room left *)
+           split; [apply in_app_iff; left; exact Hk|]. rewrite behind_app_in by exact Hk.
+           apply incl_app; [apply incl_appl, Hi|apply incl_appr, incl_refl].
+        -- (* full: the victim is not k *)
+           cbn [remove order]. apply behind_after_push; [exact Hk| |exact Hi].
+           intros ->. destruct (victim_spec now c k Hv) as [[l1 [l2 [_ [Hexp _]]]]|[_ [l2 Ho]]]; [congruence|].
+           (* k at the front of a full cache: every other entry is behind it *)
+           rewrite Ho in Hi, Hk'. cbn [behind] in Hi. rewrite N.eqb_refl in Hi.
+           pose proof (wf_length c W) as Q. rewrite Ho in Q. cbn [length] in Q.
+           assert (ND : NoDup (l2 ++ [k'])).
+           { apply NoDup_snoc.
+             - pose proof (wf_order c W) as N0. rewrite Ho in N0. inversion N0; assumption.
+             - intros H. apply Hk'. right; exact H. }
+           assert (I2 : incl (l2 ++ [k']) (U ++ [k'])).
+           { apply incl_app; [apply incl_appl, Hi|apply incl_appr, incl_refl]. }
+           pose proof (nodup_length_incl _ _ ND I2) as Q2. rewrite app_length in Q2. cbn [length] in Q2. lia.
+  - (* get *)
+    destruct (N.eq_dec k' k) as [->|Hne].
+    + rewrite (get_hit_moves_back now k c ek W Lk Xk). cbn [fst snd order remove_key].
+      rewrite N.eqb_refl. split.
+      * apply in_app_iff. right. left. reflexivity.
+      * rewrite behind_back by apply remove_key_self_notin. intros y [].
+    + unfold get in *. destruct (lookup k' (items c)) as [e|] eqn:L.
+      * destruct (expired now e) eqn:X; cbn [fst snd order remove_key] in *.
+        -- rewrite app_nil_r. apply behind_after_remove; assumption.
+        -- replace (N.eqb k k') with false in * by (symmetry; apply N.eqb_neq; congruence).
+           rewrite touch_present by (apply W; eapply lookup_In_keys, L).
+           apply behind_after_push; assumption.
+      * cbn [fst snd remove_key]. rewrite app_nil_r. tauto.
+  - (* delete *)
+    cbn [remove_key]. rewrite app_nil_r. unfold delete. rewrite remove_order.
+    apply behind_after_remove; [exact Hk| |exact Hi]. intros ->. apply Hdel. reflexivity.
+  - (* cleanup *)
+    cbn [remove_key]. rewrite app_nil_r. unfold cleanup. apply behind_fold_remove; [|exact Hk|exact Hi].
+    rewrite cleanup_keys_In by apply W. intros [e [L X]]. rewrite Lk in L. inversion L; subst. congruence.
+Qed.
+
+Lemma retain_run k h : forall c rh U,
+  wf c -> agrees c rh -> (0 < cap c)%nat ->
+  In k (order c) -> incl (behind k (order c)) U ->
+  (forall t, ~ In (t, ODel k) h) -> live_through k rh h ->
+  (length (nodup N.eq_dec (U ++ remove_key k (used c h))) < cap c)%nat ->
+  In k (order (fst (run c h))).
+Proof.
+  induction h as [|[now o] h IH]; intros c rh U W A Hp Hk Hi Hdel Hlive Hlen; [exact Hk|].
+  rewrite run_fst_cons. rewrite used_cons, remove_key_app, app_assoc in Hlen. cbn [snd] in Hlen.
+  cbn [live_through] in Hlive. destruct Hlive as [Hl1 Hl2].
+  set (U' := U ++ remove_key k (use_list o (snd (step c (now, o))))) in *.
+  destruct (retain_step c rh U k now o W A Hp Hk Hi) as [H1 H2].
+  - intros ->. apply (Hdel now). left; reflexivity.
+  - exact Hl1.
+  - fold U'. pose proof (nodup_length_mono U' (U' ++ remove_key k (used (fst (step c (now, o))) h))
+                           (incl_appl _ (incl_refl _))). lia.
+  - apply (IH (fst (step c (now, o))) ((now, o) :: rh) U').
+    + apply wf_step, W.
+    + apply agrees_step; assumption.
+    + rewrite cap_step. exact Hp.
+    + exact H1.
+    + exact H2.
+    + intros t H. apply (Hdel t). right; exact H.
+    + exact Hl2.
+    + rewrite cap_step. exact Hlen.
+Qed.
+
+(* a use puts the key at the back of the usage order *)
+Lemma use_at_back c now o k :
+  wf c -> use_of o (snd (step c (now, o))) = Some k ->
+  In k (order (fst (step c (now, o)))) /\ behind k (order (fst (step c (now, o)))) = [].
+Proof.
+  intros W. destruct o as [k' v ttl|k'|k'|]; cbn [step fst snd use_of]; try discriminate.
+  - intros H; inversion H; subst k'. destruct (lookup k (items c)) as [e0|] eqn:L.
+    + rewrite (set_overwrite_moves_back now k v ttl c e0 W L). cbn [order]. split.
+      * apply in_app_iff. right. left. reflexivity.
+      * apply behind_back, remove_key_self_notin.
+    + rewrite (set_new _ _ _ _ _ L). cbn [order]. split.
+      * apply in_app_iff. right. left. reflexivity.
+      * apply behind_back. assert (W' : wf (make_room now c)).
+        { unfold make_room. destruct (Nat.leb _ _); [apply wf_evict, W|exact W]. }
+        rewrite (wf_same _ W'). apply lookup_None_keys, make_room_lookup_None, L.
+  - unfold get. destruct (lookup k' (items c)) as [e|] eqn:L; cbn [snd]; [|discriminate].
+    destruct (expired now e) eqn:X; cbn [fst snd order]; [discriminate|].
+    intros H; inversion H; subst k'.
+    rewrite touch_present by (apply W; eapply lookup_In_keys, L). split.
+    + apply in_app_iff. right. left. reflexivity.
+    + apply behind_back, remove_key_self_notin.
+Qed.
+
+Lemma run_fst_app c h1 h2 : fst (run c (h1 ++ h2)) = fst (run (fst (run c h1)) h2).
+Proof.
+  revert c. induction h1 as [|ev h1 IH]; intros c; cbn [app]; [reflexivity|].
+  rewrite !run_fst_cons. apply IH.
+Qed.
+
+Lemma cap_run c h : cap (fst (run c h)) = cap c.
+Proof.
+  revert c. induction h as [|ev h IH]; intros c; [reflexivity|].
+  rewrite run_fst_cons, IH. apply cap_step.
+Qed.
+
+(* C13, retention clause.  In a run from the empty cache of capacity n >= 1:
+   if step (t, o) — coming after any history h1 — uses key k (a Set of k, or a
+   Get of k that returns a value), and in the steps h2 that follow k is never
+   deleted, k's entry is unexpired at the instant of each step, and the number
+   of DISTINCT other keys used in h2 is smaller than n, then k is still in the
+   cache after h2. *)
+Theorem retention n h1 t o h2 k :
+  (0 < n)%nat ->
+  use_of o (snd (step (fst (run (empty n) h1)) (t, o))) = Some k ->
+  (forall t', ~ In (t', ODel k) h2) ->
+  live_through k ((t, o) :: rev h1) h2 ->
+  (length (nodup N.eq_dec (remove_key k (used (fst (step (fst (run (empty n) h1)) (t, o))) h2))) < n)%nat ->
+  In k (keys (items (fst (run (empty n) (h1 ++ (t, o) :: h2))))).
+Proof.
+  intros Hp Hu Hdel Hlive Hlen.
+  pose proof (wf_run n h1) as W0. pose proof (agrees_run n h1) as A0.
+  set (c0 := fst (run (empty n) h1)) in *.
+  destruct (use_at_back c0 t o k W0 Hu) as [Hk Hb].
+  rewrite run_fst_app, run_fst_cons. fold c0.
+  assert (W1 : wf (fst (step c0 (t, o)))) by (apply wf_step, W0).
+  assert (C1 : cap (fst (step c0 (t, o))) = n).
+  { rewrite cap_step. unfold c0. rewrite cap_run. reflexivity. }
+  assert (Wr : wf (fst (run (fst (step c0 (t, o))) h2))).
+  { replace (fst (run (fst (step c0 (t, o))) h2)) with (fst (run (empty n) (h1 ++ (t, o) :: h2))).
+    - apply wf_run.
+    - rewrite run_fst_app, run_fst_cons. reflexivity. }
+  apply Wr.
+  apply (retain_run k h2 (fst (step c0 (t, o))) ((t, o) :: rev h1) []).
+  - exact W1.
+  - apply agrees_step; assumption.
+  - rewrite C1. exact Hp.
+  - exact Hk.
+  - rewrite Hb. intros y [].
+  - exact Hdel.
+  - exact Hlive.
+  - rewrite C1. cbn [app]. exact Hlen.
+Qed.
+
+(* ------------------------------------------------------------ concurrent use under the cache's mutex *)
+
+(* Instantiation of Proofs/Locked.v.  An operation of a thread is an event
+   (instant, op): the instant is what time.Now() returns inside the critical
+   section.  `body` is ANY decomposition of the methods into micro-steps that,
+   run alone, computes Model.Cache.step; that every exported method of the Go
+   cache runs its whole body between c.mutex.Lock() and the deferred Unlock, and
+   that the helpers are reachable only from there, is the content of
+   VFP.ParamsLock (Properties/C13.v, C13_lock_discipline). *)
+
+Definition atomic_body (ev : time * op) : prog cache (option Z) :=
+  Act (fun s => fst (step s ev)) (fun s => Ret (snd (step s ev))).
+
+Lemma atomic_body_step ev s : run_prog (atomic_body ev) s = step s ev.
+Proof. cbn. destruct (step s ev); reflexivity. Qed.
+
+Lemma seq_run_run c h : seq_run step c h = run c h.
+Proof.
+  revert c. induction h as [|ev h IH]; intros c; cbn [seq_run run]; [reflexivity|].
+  destruct (step c ev) as [c1 o]. rewrite IH. reflexivity.
+Qed.
+
+Lemma states_last_run c h : h <> [] -> In (fst (run c h)) (states c h).
+Proof.
+  revert c. induction h as [|ev h IH]; intros c Hne; [congruence|].
+  rewrite run_fst_cons. cbn [states]. destruct h as [|ev2 h]; [left; reflexivity|].
+  right. apply IH. discriminate.
+Qed.
+
+(* Under the lock discipline, for every number of threads, every program per
+   thread and every schedule: whenever no operation is in flight the cache is
+   exactly the state, and the threads have been handed exactly the results, of
+   the sequential run of the operations in lock-acquisition order — hence it
+   is well formed, within capacity, and the history satisfies the C13 monitor. *)
+Theorem cache_concurrent (body : time * op -> prog cache (option Z)) n progs schedule :
+  (forall ev s, run_prog (body ev) s = step s ev) ->
+  (0 < n)%nat ->
+  let cf := exec body (init (empty n) progs) schedule in
+  holder cf = None ->
+  let h := map snd (acq cf) in
+  run (empty n) h = (shared cf, rets cf)
+  /\ (forall i, outs (threads cf i) = map snd (filter (mine_out i) (combine (acq cf) (rets cf))))
+  /\ (forall i, map snd (filter (mine i) (acq cf)) ++ todo (threads cf i) = progs i)
+  /\ wf (shared cf)
+  /\ (length (items (shared cf)) <= n)%nat
+  /\ check_lru n h (rets cf) (map (fun c => keys (items c)) (states (empty n) h)) = true.
+Proof.
+  intros Hb Hp cf Hh h.
+  destruct (locked_linearizable cache (time * op) (option Z) step body Hb (empty n) progs schedule Hh)
+    as [H1 [H2 H3]].
+  fold cf in H1, H2, H3. fold h in H1. rewrite seq_run_run in H1.
+  assert (Es : shared cf = fst (run (empty n) h)) by (rewrite H1; reflexivity).
+  assert (Er : rets cf = snd (run (empty n) h)) by (rewrite H1; reflexivity).
+  split; [exact H1|]. split; [exact H2|]. split; [exact H3|]. split; [|split].
+  - rewrite Es. apply wf_run.
+  - rewrite Es. destruct h as [|ev h'] eqn:E; [cbn; lia|].
+    apply (capacity_respected n (ev :: h') _ Hp). apply states_last_run. discriminate.
+  - rewrite Er. apply run_check_lru, Hp.
+Qed.
